@@ -21,15 +21,24 @@ def canon(x):
     return repr(x)
 
 
+FINDERS = {}
+
+
 def finder_of(name):
+    """One Finder instance per name and process: a client keeps its Finder and may hold several result generators of it."""
     from spil import FindInList, FindInPaths, FindInAll
+    if name in FINDERS:
+        return FINDERS[name]
     if name == "list":
-        return FindInList(list(CTX["list"]))
-    if name.startswith("paths:"):
-        return FindInPaths(name.split(":", 1)[1])
-    if name == "paths":
-        return FindInPaths()
-    return FindInAll()
+        f = FindInList(list(CTX["list"]))
+    elif name.startswith("paths:"):
+        f = FindInPaths(name.split(":", 1)[1])
+    elif name == "paths":
+        f = FindInPaths()
+    else:
+        f = FindInAll()
+    FINDERS[name] = f
+    return f
 
 
 def exec_call(spec):
@@ -84,6 +93,21 @@ def exec_call(spec):
                 KEEP_ALIVE.append(g)
             if spec.get("as_set"):
                 return canon(len(out))
+            return canon(out)
+        if f == "find_interleaved":
+            # one client, one Finder: a result generator is read partly, another search runs on the same Finder, the first is read on
+            fd = finder_of(spec["finder"])
+            g = fd.find(spec["search"], **spec.get("kw", {}))
+            out = []
+            for _ in range(spec["k"]):
+                try:
+                    out.append(next(g))
+                except StopIteration:
+                    break
+            other = list(fd.find(spec["other_search"]))
+            out.extend(g)
+            if spec.get("as_set"):
+                out = sorted(out, key=lambda i: getattr(i, "uri", i))
             return canon(out)
         if f == "sid_op":
             x = Sid(spec["sid"])
